@@ -128,9 +128,10 @@ func derivesFromElem(v ssa.Value, ml mapLoop) bool {
 
 // exceptions: function -> reason (one line each)
 var c16Table = map[string]string{
-	"engine.collectSubworkflowCache": "file caches of sub-workflows are appended in map order before MergeFileCaches, where later entries win; equal keys name the same file with the same content, so the merged cache does not depend on the order",
-	"infer.mapType":                  "keeps the value type of the first element in map order and checks that all elements share its TypeID; only reachable with non-string keys, which the YAML conversion cannot produce (latent nondeterminism, noted in DESIGN)",
-	"util.BuildNamespaceString":      "builds the text of an error message only",
+	"engine.collectSubworkflowCache":    "file caches of sub-workflows are appended in map order before MergeFileCaches, where later entries win; equal keys name the same file with the same content, so the merged cache does not depend on the order",
+	"infer.mapType":                     "keeps the value type of the first element in map order and checks that all elements share its TypeID; only reachable with non-string keys, which the YAML conversion cannot produce (latent nondeterminism, noted in DESIGN)",
+	"util.BuildNamespaceString":         "builds the text of an error message only",
+	"(registry.stepRegistry).GetByKind": "fills the ValidKinds list of the `provider not found` error in map order; the list only feeds that error's text — acceptance, graph and schemas do not depend on it",
 }
 
 // C16.R1 map iteration is order-insensitive.
@@ -160,7 +161,7 @@ func c16R1(c *Ctx) {
 				c.ok(rule, key, pos, ml.how+": order-sensitive effect under a len(m) == 1 guard ("+strings.Join(problems, "; ")+")", true)
 				continue
 			}
-			if why, ok := c.tabledS(c16Table, fn, ""); ok {
+			if why, ok := c.c16Tabled(fn); ok {
 				c.ok(rule, key, pos, "tabled: "+why+" ["+strings.Join(problems, "; ")+"]", false)
 				continue
 			}
@@ -210,6 +211,20 @@ func (c *Ctx) orderSensitiveEffects(ml mapLoop) []string {
 			}
 			if derivesFromElem(e, ml) {
 				out = append(out, "an outer variable keeps the value of the last iteration ("+phi.Comment+")")
+			}
+		}
+		// a value carried over from earlier iterations that is READ while the current element is processed (a flag that
+		// sticks once some element set it, a running counter used to label elements): what is built for an element then
+		// depends on which elements came before it
+		changes := false
+		for i, e := range phi.Edges {
+			if li.Blocks[li.Header.Preds[i]] && e != ssa.Value(phi) {
+				changes = true
+			}
+		}
+		if _, isIter := phi.Type().Underlying().(*types.Basic); changes && isIter || changes && !isErrorType(phi.Type()) {
+			if use := carriedUse(phi, li); use != nil {
+				out = append(out, fmt.Sprintf("the variable %s is carried over from earlier iterations and read at %s while the current element is processed", phi.Comment, c.instrPos(use)))
 			}
 		}
 	}
@@ -267,6 +282,14 @@ func (c *Ctx) orderSensitiveEffects(ml mapLoop) []string {
 		for _, in := range b.Instrs {
 			switch x := in.(type) {
 			case *ssa.Store:
+				// a field of ONE object that was allocated before the loop receives a value of the current element: every
+				// iteration overwrites it, and whoever was handed the object in an earlier iteration sees the last value
+				if fa, ok := x.Addr.(*ssa.FieldAddr); ok {
+					if base, ok := fa.X.(*ssa.Alloc); ok && base.Heap && !region[base.Block()] && derivesFromElem(x.Val, ml) {
+						out = append(out, fmt.Sprintf("the field %s of one object allocated before the loop is overwritten with a value of the current element at %s (the object is shared by all iterations)", fieldName(fieldAddrVar(fa)), c.instrPos(x)))
+					}
+					continue
+				}
 				al, ok := x.Addr.(*ssa.Alloc)
 				if !ok || region[al.Block()] {
 					continue
@@ -449,4 +472,101 @@ func condReadsOuterMutable(v ssa.Value, ml mapLoop) bool {
 		return false
 	})
 	return found
+}
+
+func isErrorType(t types.Type) bool { return t.String() == "error" }
+
+// carriedUse: an instruction inside the loop that reads the header phi other than the instructions that merely carry
+// or update it (phis, the numeric self-update `p + k`), index the ranged slice with it or test the loop condition.
+func carriedUse(phi *ssa.Phi, li *loopInfo) ssa.Instruction {
+	seen := map[ssa.Value]bool{}
+	var scan func(v ssa.Value, d int) ssa.Instruction
+	scan = func(v ssa.Value, d int) ssa.Instruction {
+		if d > 5 || seen[v] || v.Referrers() == nil {
+			return nil
+		}
+		seen[v] = true
+		for _, ref := range *v.Referrers() {
+			if _, isDbg := ref.(*ssa.DebugRef); isDbg {
+				continue
+			}
+			if !li.Blocks[ref.Block()] {
+				continue
+			}
+			switch x := ref.(type) {
+			case *ssa.Phi:
+				// merges that carry the value on (back into the header phi or into another carrier)
+				if u := scan(x, d+1); u != nil {
+					return u
+				}
+				continue
+			case *ssa.BinOp:
+				// the loop condition
+				if ref.Block() == li.Header || isLoopCond(x, li) {
+					switch x.Op {
+					case token.LSS, token.LEQ, token.NEQ, token.GTR, token.GEQ:
+						continue
+					}
+				}
+				// the numeric self-update p + k: its uses count as uses of p
+				if bt, ok := x.Type().Underlying().(*types.Basic); ok && bt.Info()&types.IsNumeric != 0 && (x.Op == token.ADD || x.Op == token.SUB) {
+					if u := scan(x, d+1); u != nil {
+						return u
+					}
+					continue
+				}
+			case *ssa.Call:
+				// append(p, ...) whose result is carried on
+				if isBuiltinCall(x, "append") && len(x.Call.Args) > 0 && x.Call.Args[0] == v {
+					if u := scan(x, d+1); u != nil {
+						return u
+					}
+					continue
+				}
+			case *ssa.Next:
+				continue // the iterator itself
+			case *ssa.IndexAddr:
+				// the induction variable of a loop over a slice (of map keys): indexing the ranged slice
+				if x.Index == v && li.Range != nil && (x.X == li.Range || derivesFrom(x.X, isValue(li.Range)) || derivesFrom(li.Range, isValue(x.X))) {
+					continue
+				}
+			}
+			return ref
+		}
+		return nil
+	}
+	return scan(phi, 0)
+}
+
+// isLoopCond: b is the condition of the header's branch.
+func isLoopCond(b *ssa.BinOp, li *loopInfo) bool {
+	if len(li.Header.Instrs) == 0 {
+		return false
+	}
+	ifi, ok := li.Header.Instrs[len(li.Header.Instrs)-1].(*ssa.If)
+	return ok && ifi.Cond == ssa.Value(b)
+}
+
+// c16Tabled: the loop's function is tabled itself, or it is a helper extracted from a tabled function that has no map
+// loop of its own any more (the tabled loop moved into the helper). A helper of a tabled function that still has its
+// loop is judged on its own: the entry is about that loop, not about everything the function calls.
+func (c *Ctx) c16Tabled(fn *ssa.Function) (string, bool) {
+	if why, ok := c16Table[c.fnName(fn)]; ok {
+		return why, true
+	}
+	cur := fn
+	for i := 0; i < 6; i++ {
+		s := ownerSite[cur]
+		if s == nil {
+			return "", false
+		}
+		cur = s.Parent()
+		if why, ok := c16Table[c.fnName(cur)]; ok {
+			if len(c.mapLoops(cur)) == 0 {
+				return why, true
+			}
+			return "", false
+		}
+	}
+	return "", false
 }
